@@ -47,4 +47,40 @@ def spliceBefore (bytes : List Nat) (off : Nat) : Bool := pendingSplices bytes o
     is line N, so a token on physical line `physTok` has presumed line `N + (physTok − physDir − 1)`. -/
 def presumedLine (n : Int) (physTok physDir : Nat) : Int := n + ((physTok : Int) - (physDir : Int) - 1)
 
+/-! ## several `#line` directives in one file: what is in force WHERE -/
+
+/-- a `#line`-family directive of one file, by position: the line its `#` is on, its operand, its optional file name -/
+structure Dir where
+  line : Nat
+  n : Int
+  name : Option String
+  deriving DecidableEq, Repr
+
+/-- of a candidate and a directive, the one further down the file -/
+def lower (best : Option Dir) (d : Dir) : Option Dir :=
+  match best with
+  | none => some d
+  | some b => if b.line < d.line then some d else some b
+
+/-- the directive in force on line `l` (C11 6.10.4: a directive renumbers "the following sequence of source lines"): among the
+    directives of the file that lie strictly above line `l`, the one furthest down.  A function of the position and of the
+    directives as a collection — the list may be given in any order, and nothing in it says when a directive was processed. -/
+def inForce (dirs : List Dir) (l : Nat) : Option Dir := (dirs.filter (fun d => d.line < l)).foldl lower none
+
+/-- the directive that determines the presumed file name on line `l`: the one in force among those that carry a name
+    (`#line N` without a name leaves the presumed file name as it was, 6.10.4p3/p4) -/
+def namedInForce (dirs : List Dir) (l : Nat) : Option Dir := inForce (dirs.filter (fun d => d.name.isSome)) l
+
+/-- C11 presumed line of a token on line `l` of a file with the directives `dirs` -/
+def presumedLineAt (dirs : List Dir) (l : Nat) : Int :=
+  match inForce dirs l with
+  | none => l
+  | some d => presumedLine d.n l d.line
+
+/-- C11 presumed file name of a token on line `l` of the file `fileName` with the directives `dirs` -/
+def presumedFileAt (fileName : String) (dirs : List Dir) (l : Nat) : String :=
+  match namedInForce dirs l with
+  | some d => d.name.getD fileName
+  | none => fileName
+
 end ChibiVerif.Spec.Line
